@@ -20,3 +20,23 @@ func ProfilePlain(avoid map[string]string) *Profile {
 		Optionals: true, Repeateds: true, Enums: true, Timestamps: true, MessageFields: true,
 		MaxServices: 2, MaxMethods: 3, Transport: true, BasePaths: true, Headers: false, QueryOnBody: true, Avoid: avoid}
 }
+
+// ProfileCodec exercises the JSON codecs: all annotations, one MarshalJSON feature per
+// message (the documented limit), annotated types nested in others, all cardinalities.
+func ProfileCodec(avoid map[string]string) *Profile {
+	return &Profile{Name: "codec", MaxDataMessages: 3, MaxFields: 4, Nested: true, Maps: true, Oneofs: true,
+		Optionals: true, Repeateds: true, Enums: true, Timestamps: true, MessageFields: true,
+		MaxServices: 1, MaxMethods: 2, Transport: true, BasePaths: true, QueryOnBody: false,
+		Features: Features(AllFeatures...), MultiFeature: false, AnnotatedNested: true, AnnotateAnyCard: true, MultiWordChild: true,
+		Avoid: avoid}
+}
+
+// ProfileMatrix is the compile matrix: every annotation on every cardinality it is accepted
+// on, several features per message, hostile identifiers, second files, examples.
+func ProfileMatrix(avoid map[string]string) *Profile {
+	p := ProfileFull(avoid)
+	p.Name = "matrix"
+	p.HostileNames = true
+	p.Recursive = false
+	return p
+}
